@@ -144,6 +144,11 @@ func initPKI() {
 // The ClickOnce manifest flow uses an RSA leaf: with an ECDSA key relic's signer time-stamps the raw r||s
 // SignatureValue while appmanifest.Verify checks the token against the DER re-encoding of it (see the notes
 // of checklib/props/c10.py), so a genuinely time-stamped ECDSA manifest fails relic's own verification.
+// leafCert: the ECDSA code-signing leaf as a certloader.Certificate
+func (p *pkiT) leafCert() *certloader.Certificate {
+	return &certloader.Certificate{Leaf: p.leaf.cert, Certificates: []*x509.Certificate{p.leaf.cert, p.root.cert}, PrivateKey: p.leaf.key}
+}
+
 func (p *pkiT) manifestLeaf(ts pkcs9.Timestamper) *certloader.Certificate {
 	p.mu.Lock()
 	defer p.mu.Unlock()
@@ -881,7 +886,7 @@ func signFlow(ctx context.Context, flow string, legacy bool, ts pkcs9.Timestampe
 		}
 		// the OID under which the token was stored
 		return tsa.issuedBy(v.cs) + " " + v.chain, nil
-	case "manifest":
+	case "manifest", "manifestec":
 		mod := signers.ByName("appmanifest")
 		q := url.Values{}
 		if legacy {
@@ -894,7 +899,13 @@ func signFlow(ctx context.Context, flow string, legacy bool, ts pkcs9.Timestampe
 		opts := signers.SignOpts{Hash: crypto.SHA256, Time: pki.base, Flags: flags,
 			Audit: audit.New("verifkey", "appmanifest", crypto.SHA256)}
 		opts = opts.WithContext(ctx)
-		blob, err := mod.Sign(strings.NewReader(manifestXML), pki.manifestLeaf(ts), opts)
+		leaf := pki.manifestLeaf(ts)
+		if flow == "manifestec" { // ECDSA leaf: the SignatureValue is r||s, which is what gets time-stamped (F26)
+			ec := *pki.leafCert()
+			ec.Timestamper = ts
+			leaf = &ec
+		}
+		blob, err := mod.Sign(strings.NewReader(manifestXML), leaf, opts)
 		if err != nil {
 			return "", err
 		}
@@ -1236,6 +1247,10 @@ func Gen(w *bufio.Writer, seed uint64, tier string) {
 	}
 	emit("C10 ts legacy manifest 0 0")
 	ts("legacy", "manifest", 1, []string{"valid"})
+	// ClickOnce manifests signed with an ECDSA key and time-stamped (RFC 3161 and legacy): must verify like the RSA ones (F26)
+	ts("rfc", "manifestec", 0, []string{"valid"})
+	ts("legacy", "manifestec", 0, []string{"valid"})
+	ts("rfc", "manifestec", 0, []string{"wimprint", "valid"})
 	// (b) every single behaviour alone, every flow
 	for _, b := range rfcBehaviours {
 		for _, fl := range []string{"p7", "p7ac", "manifest"} {
